@@ -88,6 +88,11 @@ def cases(draw):
             op['fault'] = {'at': 'status', 'status': draw(st.sampled_from([500, 503]))}
         elif f == 1:
             op['fault'] = {'at': draw(st.sampled_from(['before-response', 'request-body', 'connect'])), 'after': draw(st.integers(0, 2))}
+        elif f == 2:
+            # the service answers with a redirect (S3 does for a bucket that lives in another region or is still
+            # propagating); whatever is sent next - a retry, or a follow-up to the new location - must be signed
+            op['fault'] = {'at': 'status', 'status': draw(st.sampled_from([301, 302, 307, 307, 308])),
+                           'redirect': draw(st.sampled_from(['same-origin', 'other-host', 'relative']))}
         ops.append(op)
     return {'adapter': adapter, 'region': region, 'host': host, 'scheme': scheme, 'bucket': draw(st.sampled_from(['bkt', 'my.bucket-1'])),
             'key_id': draw(st.sampled_from(['AKIDEXAMPLE', 'k'])), 'access_key': draw(st.sampled_from(['wJalrXUtnFEMI/K7MDENG+bPxRfiCYEXAMPLEKEY', 's3cr3t'])),
@@ -153,6 +158,8 @@ def run_case(case):
     errors = 0
     t = case['base']
     days = set()
+    redirect_hosts = set()
+    import httpx
 
     async def go():
         nonlocal t, nontrivial, errors
@@ -161,7 +168,15 @@ def run_case(case):
             _Clock.now = t
             days.add(t // 86400)
             if op.get('fault'):
-                fake.faults[fake.count + 1] = op['fault']
+                fault = dict(op['fault'])
+                if fault.get('redirect'):
+                    authority = f'{case["scheme"]}://{case["host"]}' if case['adapter'] != 's3' else f'https://s3.{case["region"]}.amazonaws.com'
+                    fault['location'] = {'same-origin': f'{authority}/{case["bucket"]}/moved%20here/x',
+                                         'other-host': f'https://{case["bucket"]}.s3.eu-west-3.amazonaws.com/moved/x',
+                                         'relative': f'/{case["bucket"]}-2/x'}[fault['redirect']]
+                    redirect_hosts.add(httpx.URL(fault['location']).netloc.decode('ascii') if '://' in fault['location'] else None)
+                    classes.append('fault:redirect-' + fault['redirect'])
+                fake.faults[fake.count + 1] = fault
                 classes.append('fault:' + op['fault']['at'])
             k = op['op']
             nm = op['name']
@@ -219,7 +234,7 @@ def run_case(case):
             classes.append('host-spelling-normalised-on-the-wire')
     for cap in fake.requests:
         probs = sigv4.verify(cap.method, cap.raw_path, cap.headers, cap.body, secrets, cap.body_complete)
-        if cap.host != want_host:
+        if cap.host != want_host and cap.host not in redirect_hosts:
             probs.append(f'request sent to host {cap.host!r}, configured {want_host!r}')
         if probs:
             return Outcome(fail('signature', f'request #{cap.ordinal} {cap.method} {cap.raw_path[:80]!r}: ' + '; '.join(probs[:2]),
